@@ -27,6 +27,7 @@ RULE = (
     "completely, deeper shapes are generated; non-trivial = MISSING nested at depth>=1 or a look-alike value; "
     "distinct = distinct (shape, ops)"
 )
+RULE += '; modification attempts also go around __setattr__ (object.__setattr__, vars())'
 LEVEL_TEXT = (
     "Identity oracle: every position that held MISSING before copy/deepcopy/pickle must hold the very same object "
     "after; predicates must agree with identity for every generated value. The operation x protocol x shape(depth<=2) "
@@ -337,6 +338,25 @@ def check_singleton_basics(out: Outcome):
             pass
         except Exception as exc:  # noqa: BLE001
             out.violate("attr", f"C20.attr/{what}-wrong-error", repr(exc))
+    # modification that goes AROUND the object's own __setattr__: the base-class setter and the instance dictionary. The
+    # one MISSING object carries no per-instance storage at all (nothing to attach a marker to, process-wide)
+    for what, fn in (
+        ("object.__setattr__", lambda: object.__setattr__(MISSING, "hv_marker", 1)),
+        ("vars()", lambda: vars(MISSING).__setitem__("hv_marker", 1)),
+        ("__dict__", lambda: object.__getattribute__(MISSING, "__dict__").__setitem__("hv_marker", 1)),
+    ):
+        try:
+            fn()
+        except (AttributeError, TypeError):
+            continue
+        except Exception as exc:  # noqa: BLE001
+            out.violate("attr", f"C20.attr/{what}-wrong-error", repr(exc))
+            continue
+        try:  # undo before reporting, so that later cases see an unmarked object again
+            object.__getattribute__(MISSING, "__dict__").pop("hv_marker", None)
+        except Exception:  # noqa: BLE001
+            pass
+        out.violate("attr", f"C20.attr/modified-through-{what}", f"{what} stored an attribute on MISSING")
     # the one attribute every object lets you assign: its class (same empty layout, so Python itself would allow it)
     try:
         MISSING.__class__ = _Impostor
